@@ -11,6 +11,7 @@ import (
 	"sort"
 	"strings"
 	"sync"
+	"sync/atomic"
 	"time"
 
 	"go4.org/jsonconfig"
@@ -19,6 +20,7 @@ import (
 	"perkeep.org/pkg/blobserver"
 	"perkeep.org/pkg/blobserver/diskpacked"
 	"perkeep.org/pkg/blobserver/files"
+	"perkeep.org/pkg/blobserver/memory"
 	"perkeep.org/pkg/sorted"
 
 	"verifharness/props/c01"
@@ -312,7 +314,9 @@ type sweepWorld struct {
 	// reindex, when set, rebuilds the index from the data files and reports the error class
 	reindex func() string
 	// after, when set, runs after every operation (waits for the goroutines the operation started)
-	after func()
+	after func(base int)
+	// noRemove: the store does not implement RemoveBlobs (encrypt)
+	noRemove bool
 }
 
 type sweepBlob struct {
@@ -327,23 +331,34 @@ type scenario struct {
 	acked []int
 	kind  string // recv rm fetch stat enum
 	ons   []int
+	// needsRemove: the scenario (or its set-up) removes
+	needsRemove bool
 }
+
+// removedInSetup: received and removed again before every operation (stores that can remove): an
+// overlay holds a tombstone for it, and the overlay worlds keep a copy of it in the lower layer
+const removedInSetup = 5
 
 // blobs 0..3 are acknowledged before every operation, blob 4 is not there; blob 3 is never the target
 // of a remove: the acknowledged, unrelated bystander
 func sweepScenarios() []scenario {
 	ack := []int{0, 1, 2, 3}
 	return []scenario{
-		{"recv-new", ack, "recv", []int{4}},
-		{"recv-dup", ack, "recv", []int{0}},
-		{"rm", ack, "rm", []int{0}},
-		{"rm-absent", ack, "rm", []int{4}},
-		{"rm-batch", ack, "rm", []int{0, 1, 2}},
-		{"rm-batch-mixed", ack, "rm", []int{1, 4, 0}},
-		{"fetch", ack, "fetch", []int{1}},
-		{"stat", ack, "stat", []int{0}},
-		{"stat-batch", ack, "stat", []int{2, 4, 0, 1}},
-		{"enum", ack, "enum", []int{0}},
+		{"recv-new", ack, "recv", []int{4}, false},
+		{"recv-dup", ack, "recv", []int{0}, false},
+		{"rm", ack, "rm", []int{0}, true},
+		{"rm-absent", ack, "rm", []int{4}, true},
+		{"rm-batch", ack, "rm", []int{0, 1, 2}, true},
+		{"rm-batch-mixed", ack, "rm", []int{1, 4, 0}, true},
+		{"fetch", ack, "fetch", []int{1}, false},
+		{"stat", ack, "stat", []int{0}, false},
+		{"stat-batch", ack, "stat", []int{2, 4, 0, 1}, false},
+		{"enum", ack, "enum", []int{0}, false},
+		// receive after remove, and reads / a second remove of the removed ref
+		{"recv-removed", ack, "recv", []int{removedInSetup}, true},
+		{"fetch-removed", ack, "fetch", []int{removedInSetup}, true},
+		{"stat-removed", ack, "stat", []int{removedInSetup, 0}, true},
+		{"rm-removed", ack, "rm", []int{removedInSetup}, true},
 	}
 }
 
@@ -356,6 +371,7 @@ func doOp(w *sweepWorld, sc scenario, blobs []sweepBlob, present map[int]bool) (
 	for _, i := range sc.ons {
 		refs = append(refs, blobs[i].ref)
 	}
+	base := runtime.NumGoroutine()
 	cls = watchdog(opTimeout, func() string {
 		switch sc.kind {
 		case "recv":
@@ -393,7 +409,7 @@ func doOp(w *sweepWorld, sc scenario, blobs []sweepBlob, present map[int]bool) (
 		}
 	})
 	if w.after != nil && cls != "hang" {
-		w.after()
+		w.after(base)
 	}
 	return cls, exact
 }
@@ -455,6 +471,8 @@ func checkState(w *sweepWorld, blobs []sweepBlob, must map[int]int, resolved map
 	return viol
 }
 
+var notReached atomic.Int32
+
 type sweepResult struct {
 	calls map[string]int // scenario → lower-layer calls of the healthy op
 	cases map[string]int // scenario → faulted cases run
@@ -478,13 +496,34 @@ func sweep(mk func() (*sweepWorld, error), blobs []sweepBlob) (*sweepResult, err
 			}
 			present[i] = true
 		}
+		if !w.noRemove {
+			b := blobs[removedInSetup]
+			_, err := blobserver.Receive(ctx, w.sto, b.ref, bytes.NewReader(b.val))
+			if err == nil {
+				err = w.sto.RemoveBlobs(ctx, []blob.Ref{b.ref})
+			}
+			if err != nil {
+				w.close()
+				return nil, nil, fmt.Errorf("setup receive+remove: %v", err)
+			}
+		}
 		return w, present, nil
 	}
+	hangs := 0
 	for _, sc := range sweepScenarios() {
+		if hangs >= 2 {
+			// a wedged configuration: every further case would cost a watchdog period
+			res.viol = append(res.viol, sc.name+"/skipped:sweep-aborted-after-2-hangs")
+			break
+		}
 		// the healthy run: how many lower-layer calls does the op make, and which
 		w, present, err := setup(sc)
 		if err != nil {
 			return nil, err
+		}
+		if w.noRemove && sc.needsRemove {
+			w.close()
+			continue
 		}
 		w.plan.arm(-1, 'b')
 		cls, exact := doOp(w, sc, blobs, present)
@@ -492,6 +531,9 @@ func sweep(mk func() (*sweepWorld, error), blobs []sweepBlob) (*sweepResult, err
 		w.close()
 		if !exact || (cls != "ok" && cls != "notexist") {
 			res.viol = append(res.viol, fmt.Sprintf("%s/healthy:answer-%s-not-exact", sc.name, cls))
+			if cls == "hang" {
+				hangs++
+			}
 			continue
 		}
 		res.calls[sc.name] = n
@@ -508,74 +550,107 @@ func sweep(mk func() (*sweepWorld, error), blobs []sweepBlob) (*sweepResult, err
 				tag := fmt.Sprintf("%s/call%d-%s-%c", sc.name, k, log[k], mode)
 				res.cases[sc.name]++
 				res.names[log[k][strings.LastIndexByte(log[k], '.')+1:]] = true
-				w.plan.arm(k, mode)
-				cls, exact := doOp(w, sc, blobs, present)
-				_, _, hit := w.plan.disarm()
-				add := func(v string) { res.viol = append(res.viol, tag+":"+v) }
-				if cls == "hang" || cls == "panic" {
-					add(cls)
-					if cls == "hang" {
-						os.RemoveAll(w.dir) // the world may be wedged: do not close it
-						continue
+				if hangs >= 2 {
+					w.close()
+					break
+				}
+				// everything after the set-up runs under a watchdog of its own: the state checks and the
+				// retry call into the store as well
+				type caseOut struct {
+					viol []string
+					hung bool
+				}
+				done := make(chan caseOut, 1)
+				go func() {
+					v, h := func() (viol []string, hung bool) {
+						w.plan.arm(k, mode)
+						cls, exact := doOp(w, sc, blobs, present)
+						_, _, hit := w.plan.disarm()
+						add := func(v string) { viol = append(viol, tag+":"+v) }
+						if cls == "hang" || cls == "panic" {
+							add(cls)
+							if cls == "hang" {
+								os.RemoveAll(w.dir) // the world may be wedged: do not close it
+								return viol, true
+							}
+						}
+						if hit == "" {
+							// the operation made fewer lower-layer calls than the healthy run (the order of a
+							// batch's sub-calls is not fixed): it ran healthy, and is checked as such
+							notReached.Add(1)
+						}
+						if cls != "err" && !exact {
+							add("answer-" + cls + "-neither-error-nor-exact")
+						}
+						// what must be there now
+						must := map[int]int{}
+						for i := range blobs {
+							if present[i] {
+								must[i] = 1
+							}
+						}
+						for _, on := range sc.ons {
+							switch {
+							case sc.kind == "recv" && cls == "ok":
+								must[on] = 1
+							case sc.kind == "recv" && !present[on]:
+								must[on] = 2 // failed receive of a new blob: absent or complete
+							case sc.kind == "rm" && cls == "ok":
+								must[on] = 0
+							case sc.kind == "rm" && present[on]:
+								must[on] = 2 // failed remove: each blob of the batch still there (intact) or gone
+							}
+						}
+						resolved := map[int]bool{}
+						for _, v := range checkState(w, blobs, must, resolved) {
+							add(v)
+						}
+						// a healthy retry succeeds and the state is then exact
+						rcls, rexact := doOp(w, sc, blobs, resolved)
+						if !rexact || (rcls != "ok" && rcls != "notexist") {
+							add("healthy-retry-" + rcls)
+						}
+						final := map[int]int{}
+						for i := range blobs {
+							if resolved[i] {
+								final[i] = 1
+							}
+						}
+						for _, on := range sc.ons {
+							if sc.kind == "recv" {
+								final[on] = 1
+							}
+							if sc.kind == "rm" {
+								final[on] = 0
+							}
+						}
+						for _, v := range checkState(w, blobs, final, map[int]bool{}) {
+							add("after-retry:" + v)
+						}
+						if w.reindex != nil {
+							if r := w.reindex(); r != "ok" {
+								add("own-recovery-fails:" + r)
+							}
+						}
+						w.close()
+						return viol, false
+					}()
+					done <- caseOut{v, h}
+				}()
+				select {
+				case o := <-done:
+					res.viol = append(res.viol, o.viol...)
+					if o.hung {
+						hangs++
 					}
+				case <-time.After(3 * opTimeout):
+					res.viol = append(res.viol, tag+":hang-after-the-faulted-call")
+					os.RemoveAll(w.dir)
+					hangs++
 				}
-				if hit == "" {
-					add("fault-not-reached")
-				}
-				if cls != "err" && !exact {
-					add("answer-" + cls + "-neither-error-nor-exact")
-				}
-				// what must be there now
-				must := map[int]int{}
-				for i := range blobs {
-					if present[i] {
-						must[i] = 1
-					}
-				}
-				for _, on := range sc.ons {
-					switch {
-					case sc.kind == "recv" && cls == "ok":
-						must[on] = 1
-					case sc.kind == "recv" && !present[on]:
-						must[on] = 2 // failed receive of a new blob: absent or complete
-					case sc.kind == "rm" && cls == "ok":
-						must[on] = 0
-					case sc.kind == "rm" && present[on]:
-						must[on] = 2 // failed remove: each blob of the batch still there (intact) or gone
-					}
-				}
-				resolved := map[int]bool{}
-				for _, v := range checkState(w, blobs, must, resolved) {
-					add(v)
-				}
-				// a healthy retry succeeds and the state is then exact
-				rcls, rexact := doOp(w, sc, blobs, resolved)
-				if !rexact || (rcls != "ok" && rcls != "notexist") {
-					add("healthy-retry-" + rcls)
-				}
-				final := map[int]int{}
-				for i := range blobs {
-					if resolved[i] {
-						final[i] = 1
-					}
-				}
-				for _, on := range sc.ons {
-					if sc.kind == "recv" {
-						final[on] = 1
-					}
-					if sc.kind == "rm" {
-						final[on] = 0
-					}
-				}
-				for _, v := range checkState(w, blobs, final, map[int]bool{}) {
-					add("after-retry:" + v)
-				}
-				if w.reindex != nil {
-					if r := w.reindex(); r != "ok" {
-						add("own-recovery-fails:" + r)
-					}
-				}
-				w.close()
+			}
+			if hangs >= 2 {
+				break
 			}
 		}
 	}
@@ -596,13 +671,13 @@ func (r *sweepResult) line(tag string) string {
 	if len(v) > 40 {
 		v = v[:40]
 	}
-	return fmt.Sprintf("%s calls=%s cases=%s faulted=%s violations=%d %s", tag, strings.Join(calls, ","),
-		strings.Join(cases, ","), strings.Join(names, ","), len(r.viol), strings.Join(v, ";"))
+	return fmt.Sprintf("%s calls=%s cases=%s faulted=%s not-reached=%d violations=%d %s", tag, strings.Join(calls, ","),
+		strings.Join(cases, ","), strings.Join(names, ","), notReached.Load(), len(r.viol), strings.Join(v, ";"))
 }
 
 func sweepBlobs(size int) []sweepBlob {
 	var out []sweepBlob
-	for i := 0; i < 5; i++ {
+	for i := 0; i < 6; i++ {
 		v := bytes.Repeat([]byte{byte('p' + i)}, size)
 		if size > 0 {
 			v[0] = byte('0' + i)
@@ -728,18 +803,8 @@ func probeTreeSweep(size int, tokens []string) string {
 			env.Close()
 			return nil, err
 		}
-		base := runtime.NumGoroutine()
 		w := &sweepWorld{sto: sto, plan: p, dir: env.Dir, close: env.Close}
-		w.after = func() {
-			deadline := time.Now().Add(2 * time.Second)
-			for i := 0; runtime.NumGoroutine() > base && time.Now().Before(deadline); i++ {
-				if i < 50 {
-					runtime.Gosched()
-				} else {
-					time.Sleep(100 * time.Microsecond)
-				}
-			}
-		}
+		w.after = settleTo
 		return w, nil
 	}
 	res, err := sweep(mk, sweepBlobs(size))
@@ -747,4 +812,78 @@ func probeTreeSweep(size int, tokens []string) string {
 		return "bad-op " + err.Error()
 	}
 	return res.line(fmt.Sprintf("treesweep size=%d", size))
+}
+
+// ---- stores that own a sorted.KeyValue: that KeyValue as the failing lower layer ---------------------------------
+
+// probeKVSweep: overlay (its `deleted` set, over a lower layer that already holds blobs – among them
+// the one the set-up removes, so that only the tombstone hides it), namespace (inventory), encrypt
+// (metaIndex; no remove) and blobpacked (metaIndex) over healthy memory stores, with every call of the
+// store's own KeyValue (Get/Set/Delete/CommitBatch/Find) failing once in every scenario.
+func probeKVSweep(kind string, size int) string {
+	blobs := sweepBlobs(size)
+	var keyFile string
+	if kind == "encrypt" {
+		kf, err := os.CreateTemp("", "c13key-")
+		if err != nil {
+			return "bad-op"
+		}
+		kf.WriteString(encIdentity + "\n")
+		kf.Close()
+		os.Chmod(kf.Name(), 0o600)
+		keyFile = kf.Name()
+		defer os.Remove(keyFile)
+	}
+	mk := func() (*sweepWorld, error) {
+		p := &callPlan{at: -1}
+		ld := stores.NewLoader()
+		kv := newPlanKVConf(p)
+		a, b := &memory.Storage{}, &memory.Storage{}
+		var conf jsonconfig.Obj
+		typ := kind
+		w := &sweepWorld{plan: p, close: func() {}}
+		switch kind {
+		case "overlay":
+			for _, i := range []int{0, removedInSetup} {
+				if _, err := blobserver.Receive(ctx, a, blobs[i].ref, bytes.NewReader(blobs[i].val)); err != nil {
+					return nil, err
+				}
+			}
+			conf = jsonconfig.Obj{"lower": ld.Add(a), "upper": ld.Add(b), "deleted": kv}
+		case "namespace":
+			conf = jsonconfig.Obj{"storage": ld.Add(a), "inventory": kv}
+		case "encrypt":
+			conf = jsonconfig.Obj{"I_AGREE": encAgreement, "keyFile": keyFile, "blobs": ld.Add(&rawMem{m: map[blob.Ref][]byte{}}),
+				"meta": ld.Add(&rawMem{m: map[blob.Ref][]byte{}}), "metaIndex": kv}
+			w.noRemove = true
+		case "blobpacked":
+			conf = jsonconfig.Obj{"smallBlobs": ld.Add(a), "largeBlobs": ld.Add(b), "metaIndex": kv}
+		default:
+			return nil, fmt.Errorf("unknown kind")
+		}
+		s, err := blobserver.CreateStorage(typ, ld, conf)
+		if err != nil {
+			return nil, err
+		}
+		w.sto = s
+		w.after = settleTo
+		return w, nil
+	}
+	res, err := sweep(mk, blobs)
+	if err != nil {
+		return "bad-op " + strings.ReplaceAll(err.Error(), "\n", " ")
+	}
+	return res.line(fmt.Sprintf("kvsweep %s size=%d", kind, size))
+}
+
+// settleTo waits until the goroutine count is back at base (at most 2 s)
+func settleTo(base int) {
+	deadline := time.Now().Add(2 * time.Second)
+	for i := 0; runtime.NumGoroutine() > base && time.Now().Before(deadline); i++ {
+		if i < 50 {
+			runtime.Gosched()
+		} else {
+			time.Sleep(100 * time.Microsecond)
+		}
+	}
 }
